@@ -1,25 +1,35 @@
 """C14 — taxonomy queries agree with the tree: LCA, lineage, clade, rank, aliases (pkg/obitax + ncbitaxdump loader)."""
-import itertools, json, os, re, subprocess, tempfile, time
+import itertools, json, math, os, re, struct, subprocess, tempfile, time
 
 PROPS = ["C14/Props.v"]
 META = dict(
-    text="22 Rocq theorems (unbounded, by induction on lineages) over an executable model of pkg/obitax and of the row semantics of ncbitaxdump.LoadNCBITaxDump: Path is the parent chain from the taxon "
+    text="46 Rocq theorems (unbounded, by induction on lineages) over an executable model of pkg/obitax and of the row semantics of ncbitaxdump.LoadNCBITaxDump: Path is the parent chain from the taxon "
          "to the self-looped root without repetition (and returns for every taxon of a well-formed taxonomy); LCA (paths compared from the root end) is the deepest common ancestor-or-self, "
          "commutative, associative, idempotent; IsSubCladeOf / IsBelongingSubclades / TaxonAtRank / HasRankDefined are membership / first match on that path; merged ids resolve to a present node; "
-         "the weighted sequence LCA at threshold 1.0 is the LCA of the taxa of positive weight whatever the map iteration order; the sequence predicates/workers select or annotate exactly what these "
-         "functions say; every listed name is found. On every run the model is evaluated by vm_compute on the same synthetic NCBI dumps and queries that the real loader and methods ran on "
-         "(every rooted tree up to 4 (quick) / 6 (thorough) nodes x all pairs incl. aliases and unknown ids x all ranks, random trees up to 2000 / 5000 nodes, chains, stars), a Python oracle on the "
-         "parent map (LCA by ancestor-set intersection and depth) checks the statement directly, and obigrep -r/-i/--require-rank and obiannotate --with-taxon-at-rank/--add-lca-in are run on built binaries.",
-    note="Hypothesis wf_tax (one self-looped root, parents present, every node reaches the root) is checked by the proved-sound wf_check on every generated taxonomy; the loader itself checks none of it "
-         "(known finding: a parent cycle makes Path loop forever; a dangling parent id leaves nil parent pointers because the error of ReindexParent is dropped). Rank labels and names are abstracted "
-         "to codes; the float threshold test of Taxonomy.LCA is modelled for threshold 1.0 only; TaxonomicDistribution overwrites (does not add) the weights of two keys resolving to the same node "
-         "(irrelevant at threshold 1.0 with positive weights - the theorem's hypothesis). CLI level is checked against the oracle only. Fixed: AddNewName dropped the first alternate name.")
-TRUSTED = ["float64: w/t == 1.0 iff w == t and 1.0*1.0 == 1.0 for 0 <= w <= t < 2^53 (threshold 1.0 test of Taxonomy.LCA)",
-           "Go map iteration order is modelled by list order; C14_wlca_order_independent / C14_wlca_threshold1 show the result does not depend on it",
-           "encoding/csv + bufio line splitting of the dump files, strconv.Atoi and the TX:(\\d+) regexp of Taxonomy.Taxon (rows / ids are modelled as already parsed)"]
+         "rows outside the tree (dangling parent) change no answer about the taxa of the tree. The weighted sequence LCA Taxonomy.LCA(seq, threshold) is modelled for EVERY threshold and for three "
+         "arithmetics of rmax (IEEE binary64 = the Go code, exact rationals, 'still 1' for threshold 1.0): the set of possible outcomes is independent of the map iteration order, it is a single outcome "
+         "iff no tie between maximal children passes the threshold (never above 1/2 with exact arithmetic, never at threshold 1.0; a witness at 1/2 is proved and observed on the code), every outcome is "
+         "a walk down the tree along a heaviest clade while (heaviest clade weight / weight of the merged taxa comparable with the current taxon) cumulated >= threshold; at threshold 1.0 it is the LCA "
+         "of the taxa designated by a key of positive count (aliases of one taxon add up, zero counts do not count). Taxon(interface{}) spellings (int, \"n\", \"+n\", first TX:n) designate one taxon; "
+         "IsNameEqual/IsNameMatching on byte strings (regexp = oracle), names.dmp lines parsed field by field. On every run the model is evaluated by vm_compute on the same synthetic NCBI dumps and "
+         "queries that the real loader and methods ran on (every rooted tree up to 5 (quick) / 6 (thorough) nodes x all pairs incl. aliases and unknown ids x all ranks, random trees up to 2000 / 5000 "
+         "nodes, chains, stars, alias chains up to length 5, rows outside the tree, thresholds from 1.5 down to 0.1 run 12-40 times each on fresh sequences: every observed (taxid, rans bit pattern, "
+         "granTotal) must be one the binary64 model allows), a Python oracle on the parent map checks the statement directly (LCA by ancestor-set intersection and depth; descent by clade weights), "
+         "and obigrep -r/-i/--require-rank and obiannotate --with-taxon-at-rank/--add-lca-in are run on built binaries.",
+    note="Hypothesis wf_tax (one self-looped root, parents present, every node reaches the root) is decided by the proved-sound wf_check on every generated taxonomy and compared with the generator's "
+         "own verdict; the loader checks none of it (observation: a parent cycle makes Path loop forever). Rank labels are abstracted to codes. The tree-level characterisation of the descent is generic in the arithmetic under the "
+         "hypotheses 'a null share fails the test on reachable scores' (threshold > 0), discharged for exact rationals (any positive threshold) and for threshold 1.0, NOT for binary64; the statement 'no tie passes above 1/2' is proved for exact rationals only - for binary64 it is observed (single outcome over repeated "
+         "runs), not proved. Regexp matching is an oracle (a table of Python re verdicts on RE2-compatible patterns in the correspondence). Thresholds <= 0 never return (observation). CLI level is "
+         "checked against the oracle only. Fixed in round 2: TaxonomicDistribution overwrote the weights of aliases of one taxon; ReindexParent stopped at the first dangling parent; SetTaxonAtRank "
+         "dereferenced a missing scientific name. Round 1: AddNewName dropped the first alternate name.")
+TRUSTED = ["float64 arithmetic of Go (float64(int) exact below 2^53, /, *, >= round-to-nearest-even) = Coq.Floats.SpecFloat binary64 (SFdiv, SFmul, SFleb, binary_normalize); compared bit for bit on every run",
+           "Go map iteration order is modelled as an arbitrary choice: wld_all collects the outcomes of every choice among maximal keys; C14_wlcad_outcomes_order_independent shows nothing else depends on it",
+           "regexp.MatchString is an oracle (Section-style parameter rm of name_matching); the fixed pattern TX:(\\d+) of Taxonomy.Taxon is transcribed as find_tx (leftmost match, greedy digits)",
+           "encoding/csv + bufio line splitting of nodes.dmp / merged.dmp (rows are modelled as already parsed); names.dmp lines: strings.Split / TrimSpace transcribed for ASCII blanks (parse_name_line)",
+           "strconv.Atoi transcribed as atoi (optional sign, decimal digits, int64 range; on a range error the value MaxInt64 is kept by Taxon)"]
 
 RANKS = ["no rank", "species", "genus", "family", "order", "class", "kingdom"]
-IMPORTS = "From Coq Require Import NArith ZArith List. Import ListNotations.\nFrom OBI.C14 Require Import Model.\nOpen Scope N_scope."
+IMPORTS = "From Coq Require Import NArith ZArith List Floats.SpecFloat. Import ListNotations.\nFrom OBI.C14 Require Import Model.\nOpen Scope N_scope."
 
 
 # ------------------------------------------------------------------ the reference semantics (parent map)
@@ -34,11 +44,18 @@ class Tax:
             if n is not None:
                 self.alias[old] = n
         self.names = {}
-        for t, n, c in case["names"]:
+        self.sci = {}
+        for row in case["names"]:
+            t, n, c = row[0], row[1].strip(), row[2].strip()
             if case.get("onlysn") and c != "scientific name":
                 continue
             if t in self.nodes:                          # names are read before merged.dmp: only node ids designate a taxon
-                self.names.setdefault(t, set()).add(n)
+                if c == "scientific name":
+                    self.sci[t] = n                      # the last one wins, the earlier ones are forgotten
+                else:
+                    self.names.setdefault(t, set()).add(n)
+        for t, n in self.sci.items():
+            self.names.setdefault(t, set()).add(n)
         self.ranklist = {r for (_, r) in self.nodes.values()}
 
     def resolve(self, x):
@@ -89,15 +106,19 @@ def expected(case):
         x, y = T.resolve(a), T.resolve(b)
         if x is None or y is None:
             e["pairs"].append(dict(lca=-1, sub=-1))
+        elif T.anc(x) is None or T.anc(y) is None:
+            e["pairs"].append("*")                       # a taxon that does not reach the root: outside the tree
         else:
             e["pairs"].append(dict(lca=T.lca(x, y), sub=int(y in T.anc(x))))
     for a in case["paths"]:
         x = T.resolve(a)
-        e["paths"].append(None if x is None else T.anc(x))
+        e["paths"].append(None if x is None else ("*" if T.anc(x) is None else T.anc(x)))
     for a, r in case["ranks"]:
         x = T.resolve(a)
         if x is None:
             e["ranks"].append(dict(at=-1, nil=0, has=-1))
+        elif T.anc(x) is None:
+            e["ranks"].append("*")
         else:
             w = T.at_rank(x, r)
             e["ranks"].append(dict(at=0 if w is None else w, nil=int(w is None), has=int(w is not None)))
@@ -105,6 +126,8 @@ def expected(case):
         x = T.resolve(a)
         if x is None:
             e["sets"].append(-1)
+        elif T.anc(x) is None:
+            e["sets"].append("*")
         else:
             cl = {T.resolve(i) for i in ids} - {None}
             e["sets"].append(int(any(w in cl for w in T.anc(x))))
@@ -113,10 +136,74 @@ def expected(case):
         e["resolve"].append(-1 if x is None else x)
     for a, n in case["namesq"]:
         x = T.resolve(a)
-        e["namesq"].append(-1 if x is None else int(n in T.names.get(x, ())))
+        e["namesq"].append(-1 if x is None else (-3 if x not in T.sci else int(n in T.names.get(x, ()))))
+    e["namesm"] = []
+    for a, pat in case.get("namesm") or []:
+        x = T.resolve(a)
+        e["namesm"].append(-1 if x is None else (-3 if x not in T.sci else int(any(re.search(pat, n) for n in T.names.get(x, ())))))
+    e["forms"] = []
+    for kind, v in case.get("forms") or []:
+        z = form_taxid(kind, v)
+        x = None if z is None else T.resolve(z)
+        e["forms"].append(-1 if x is None else x)
+    if case.get("loads"):
+        e["nilpar"] = [sorted(t for t, (p, _) in T.nodes.items() if p not in T.nodes)]
     for s in case["seqs"]:
         e["seqs"].append(expected_seq(T, s))
     return e
+
+
+def form_taxid(kind, v):
+    """the taxid Taxonomy.Taxon(interface{}) looks up (None = parse error)"""
+    if kind == "int":
+        return v
+    if kind != "str":
+        return 0                                         # the type switch has no default: itaxid stays 0
+    if re.fullmatch(r"[+-]?[0-9]+", v) and -2 ** 63 <= int(v) < 2 ** 63:
+        return int(v)
+    m = re.search(r"TX:([0-9]+)", v)
+    if not m:
+        return None
+    return min(int(m.group(1)), 2 ** 63 - 1)
+
+
+def fbits(x):
+    return struct.unpack(">Q", struct.pack(">d", x))[0]
+
+
+def descent(T, dist, thr):
+    """Taxonomy.LCA(seq, thr) restated on the TREE (clade weights), every choice among tied heaviest children:
+    set of (taxid | -4, bits of rans).  dist: node -> weight >= 0 (all nodes reach the root); thr > 0."""
+    if not dist:
+        return {(-4, fbits(1.0))}
+    nodes = list(dist)
+    root = T.anc(nodes[0])[-1]
+    if not (1.0 >= thr):
+        return {(root, fbits(1.0))}
+    ancs = {x: T.anc(x) for x in nodes}
+    ancset = {x: set(a) for x, a in ancs.items()}
+    res = set()
+    todo = [(root, 1.0, 0)]
+    while todo:
+        # one turn of the loop: answer = a, rans = r; candidates are the taxa at this depth below a
+        a, r, depth = todo.pop()
+        if depth == 0:
+            cand = {root}
+            total = sum(dist.values())
+        else:
+            cand = {ancs[x][-1 - depth] for x in nodes if len(ancs[x]) > depth and ancs[x][-depth] == a}
+            anc_a = set(T.anc(a))
+            total = sum(w for x, w in dist.items() if a in ancset[x] or x in anc_a)
+        ws = {c: sum(w for x, w in dist.items() if c in ancset[x]) for c in cand}
+        wmax = max([0] + list(ws.values()))
+        r2 = r * (wmax / total) if total > 0 else 0.0
+        if not (r2 >= thr):
+            res.add((a, fbits(r)))
+            continue
+        for c in cand:
+            if ws[c] == wmax and wmax > 0:
+                todo.append((c, r2, depth + 1))
+    return res
 
 
 UNKNOWN_ID = 10 ** 9 + 7
@@ -173,6 +260,22 @@ def expected_seq(T, s):
                 r["wlca"] = r["lcaattr"] = l
             else:
                 r["wlca"] = r["lcaattr"] = None    # no taxon of positive weight: unconstrained
+    r["notax"] = -9
+    if s.get("merged") is None and s.get("taxid") is None:
+        x0 = T.resolve(0)                                        # {"na": 1}: Atoi("na") = 0: taxid 0 is looked up
+        r["notax"] = x0 if x0 is not None and T.anc(x0) is not None else -3
+    r["thr"] = []
+    for thr in s.get("thr") or []:
+        m = s["merged"] if s.get("merged") is not None else ({str(s["taxid"]): 1} if s.get("taxid") is not None else {"0": 1})
+        taxa = [(T.resolve(int(k)), w) for k, w in m.items()]
+        if any(t is None or T.anc(t) is None for t, _ in taxa):
+            r["thr"].append(None)                                # panic
+            continue
+        dist = {}
+        for t, w in taxa:
+            dist[t] = dist.get(t, 0) + w                         # the weights of aliases of one taxon add up
+        g = sum(dist.values())
+        r["thr"].append(sorted((t, b, g) for t, b in descent(T, dist, thr)))
     return r
 
 
@@ -183,15 +286,17 @@ def compare(case, obs, exp):
         return [("load", 0, obs, "ok")]
     for k in ("pairs", "ranks"):
         for i, (o, x) in enumerate(zip(obs.get(k) or [], exp[k])):
-            if o != x:
+            if o != x and x != "*":
                 bad.append((k, i, o, x))
     for i, (o, x) in enumerate(zip(obs.get("paths") or [], exp["paths"])):
-        if o != x:
+        if o != x and x != "*":
             bad.append(("paths", i, o, x))
-    for k in ("sets", "resolve", "namesq"):
+    for k in ("sets", "resolve", "namesq", "namesm", "forms"):
         for i, (o, x) in enumerate(zip(obs.get(k) or [], exp[k])):
-            if o != x:
+            if o != x and x != "*":
                 bad.append((k, i, o, x))
+    if "nilpar" in exp and obs.get("nilpar") != exp["nilpar"]:
+        bad.append(("nilpar", 0, obs.get("nilpar"), exp["nilpar"]))
     for i, (o, x) in enumerate(zip(obs.get("seqs") or [], exp["seqs"])):
         for f in ("valid", "restrict", "ignore", "require", "slotsub", "wlca", "lcaattr"):
             if x[f] is not None and o[f] != x[f]:
@@ -200,6 +305,30 @@ def compare(case, obs, exp):
             bad.append(("seq.atrank", i, o.get("atrank"), x["atrank"]))
         if x["lcaattr"] is not None and x["lcaattr"] >= 0 and o.get("lcaerr") not in ("0", "-0"):
             bad.append(("seq.lcaerr", i, o.get("lcaerr"), "0"))
+        if o.get("notax", -9) != x["notax"]:
+            bad.append(("seq.notax", i, o.get("notax"), x["notax"]))
+        for j, (thr, ot, xt) in enumerate(zip(case["seqs"][i].get("thr") or [], o.get("thr") or [], x["thr"])):
+            what = "seq.thr1" if thr == 1.0 else "seq.thr"       # thr1: the zero-error case the property speaks of
+            runs = [q for q in ot if q["t"] != -100]
+            wk = [q for q in ot if q["t"] == -100]
+            if xt is None:
+                if any(q["t"] != -3 for q in runs):
+                    bad.append((what, i, ot, "panic"))
+                continue
+            allowed = {(t, b, g) for t, b, g in xt}
+            got = {(q["t"], int(q["b"]) if q["b"] else 0, q["g"]) for q in runs}
+            if not got <= allowed or (thr == 1.0 and len(got) != 1):
+                bad.append((what, i, sorted(got), sorted(allowed)))
+            for q in wk:                                          # the worker: taxid and error = round((1-rans)*1000)/1000
+                okw = False
+                for t, b, g in xt:
+                    rans = struct.unpack(">d", struct.pack(">Q", b))[0]
+                    try:
+                        okw = okw or (q["wt"] == t and abs(float(q["we"]) - math.floor((1 - rans) * 1000 + 0.5) / 1000) < 1e-12)
+                    except ValueError:
+                        pass
+                if not okw:
+                    bad.append((what + ".worker", i, q, sorted(allowed)))
     for k in ("pairs", "paths", "ranks", "sets", "resolve", "namesq", "seqs"):
         if len(obs.get(k) or []) != len(exp[k]):
             bad.append((k + ".len", 0, len(obs.get(k) or []), len(exp[k])))
@@ -240,7 +369,7 @@ def shape(rng, n, kind):
     return [0] + [rng.randrange(0, v) for v in range(1, n)]      # random recursive tree
 
 
-def mk_case(rng, par, kind, nq, exhaustive=False, ranks=None, with_seqs=True):
+def mk_case(rng, par, kind, nq, exhaustive=False, ranks=None, with_seqs=True, plain=False):
     n = len(par)
     # taxids: distinct; the root is usually 1 (NCBI) but not always
     if exhaustive:
@@ -258,7 +387,7 @@ def mk_case(rng, par, kind, nq, exhaustive=False, ranks=None, with_seqs=True):
     rng.shuffle(rows)
     used = set(ids)
     fresh = []
-    while len(fresh) < 6:
+    while len(fresh) < 12:
         x = rng.randrange(0, 12 * n + 40)
         if x not in used:
             used.add(x); fresh.append(x)
@@ -271,20 +400,55 @@ def mk_case(rng, par, kind, nq, exhaustive=False, ranks=None, with_seqs=True):
     if olds and rng.random() < 0.4:
         merged.append([fresh[5], olds[0]])                   # chained: merged into an id that is itself merged (listed before)
         olds = olds + [fresh[5]]
+        if rng.random() < 0.6:                               # round 2: alias chains of length 3..5
+            for j in range(6, 6 + rng.randrange(1, 4)):
+                merged.append([fresh[j], olds[-1]])
+                olds = olds + [fresh[j]]
+    if rng.random() < 0.1:
+        merged.append([fresh[10], fresh[9]])                 # chain listed in the wrong order: the first row is skipped (new id unknown at that moment)
+        merged.append([fresh[9], rng.choice(ids)])
+        olds = olds + [fresh[9]]
+        unknown = unknown + [fresh[10]]
     if rng.random() < 0.2:
         merged.append([rng.choice(ids), rng.choice(ids)])    # an old id that is still a node: the node wins
     if rng.random() < 0.2:
         merged.append([unknown[1], unknown[0]])              # merged into an unknown id: ignored
     if olds and rng.random() < 0.2:
         merged.append([olds[0], rng.choice(ids)])            # the same old id twice: the later row wins
-    names = [[t, "taxon%d" % t, "scientific name"] for t in ids]
+    names = [[t, "taxon%d" % t, "scientific name", rng.choice(["", "taxon%d <x>" % t])] for t in ids]
     for t in rng.sample(ids, min(n, 3)):
         for j in range(rng.randrange(1, 4)):
-            names.append([t, "alt%d_%d" % (t, j), rng.choice(["synonym", "common name"])])
+            names.append([t, "alt%d_%d" % (t, j), rng.choice(["synonym", "common name", "scientific name ", "Scientific name", "authority"]), "u%d" % j])
+        if rng.random() < 0.3:
+            names.append([t, "second sci %d" % t, "scientific name", ""])    # two scientific names: the last row wins
+    for r in names:
+        r.append(rng.choice([0, 0, 0, 1, 2]))               # layout of the line (tabs / nothing / blanks)
+    nameless = None
+    if not exhaustive and not plain and n >= 3 and rng.random() < 0.15:
+        nameless = rng.choice(ids[1:])                       # a taxon without any "scientific name" row
+        names = [r for r in names if not (r[0] == nameless and r[2] == "scientific name")]
     rng.shuffle(names)
+    garbage = []
+    if not exhaustive and not plain and n >= 3 and rng.random() < 0.15:
+        # rows that are not part of the tree: a dangling parent id (and possibly a child of that row)
+        g1 = fresh[11]
+        rows.append([g1, 10 ** 6 + rng.randrange(1000), rng.choice(pool)])
+        garbage.append(g1)
+        if rng.random() < 0.5:
+            g2 = 10 ** 6 + 5000 + rng.randrange(1000)
+            rows.append([g2, g1, rng.choice(pool)])
+            garbage.append(g2)
+        rng.shuffle(rows)
+        names += [[g, "garbage%d" % g, "scientific name", "", 0] for g in garbage]
     qids = ids + olds + unknown
     case = dict(kind=kind, n=n, nodes=rows, names=names, merged=merged, onlysn=rng.random() < 0.25)
+    if garbage:
+        case["loads"] = 6
+        case["garbage"] = garbage
+    elif rng.random() < 0.1:
+        case["loads"] = 2
     T = Tax(case)
+    small = n <= 60
     if exhaustive:
         case["pairs"] = [[a, b] for a in qids for b in qids]
         case["paths"] = list(qids)
@@ -301,8 +465,24 @@ def mk_case(rng, par, kind, nq, exhaustive=False, ranks=None, with_seqs=True):
         case["paths"] = [rng.choice(qids) for _ in range(max(3, nq // 8))] + [ids[0]]
         case["ranks"] = [[rng.choice(qids), rng.choice(pool + ["absent rank"])] for _ in range(nq)]
         case["resolve"] = [rng.choice(qids) for _ in range(nq // 2)] + olds + unknown
-    case["sets"] = [[rng.choice(qids), [rng.choice(qids) for _ in range(rng.randrange(0, 4))]] for _ in range(min(nq, 12))]
-    case["namesq"] = [[t, nm] for t, nm, c in names if c != "scientific name"][:12] + [[names[0][0], "nobody"]]
+    if garbage:
+        case["pairs"] += [[rng.choice(garbage), rng.choice(ids)], [rng.choice(ids), rng.choice(garbage)], [garbage[0], garbage[-1]], [garbage[-1], garbage[0]]]
+        case["paths"] += garbage
+        case["ranks"] += [[g, rng.choice(pool)] for g in garbage]
+        case["resolve"] += garbage
+    case["sets"] = [[rng.choice(qids), [rng.choice(qids + garbage) for _ in range(rng.randrange(0, 4))]] for _ in range(min(nq, 12))]
+    case["namesq"] = [[r[0], r[1]] for r in names if r[2] != "scientific name"][:12] + [[names[0][0], "nobody"], [names[0][0], ""]] + \
+                     [[rng.choice(ids), "taxon%d" % rng.choice(ids)] for _ in range(3)] + ([[nameless, "taxon%d" % nameless]] if nameless else [])
+    pats = ["^taxon", "^alt", "_1$", "t.x", "[0-9]+_[0-9]", "zzz", "(second|alt)", "taxon%d$" % rng.choice(ids), "^$", "sci [0-9]", "n%d" % (rng.choice(ids) % 10)]
+    case["namesm"] = [[rng.choice(qids), rng.choice(pats)] for _ in range(min(nq, 8))] + ([[nameless, "taxon"]] if nameless else [])
+    x = rng.choice(qids)
+    case["forms"] = [["int", x], ["str", str(x)], ["str", "TX:%d" % x], ["str", "taxon [TX:%d] TX:1" % x], ["str", "+%d" % x], ["str", "-%d" % x], ["str", "TX:%dx" % x],
+                     ["str", "TTX:%d" % x], ["str", "TX:TX:%d" % x], ["str", "TX: %d" % x], ["str", "tx:%d" % x], ["str", " %d" % x], ["str", "%d " % x], ["str", ""],
+                     ["str", "0%d" % x], ["str", "TX:00%d" % x], ["str", "%d_0" % x], ["str", "0x%d" % x], ["str", "TX:99999999999999999999"], ["str", "99999999999999999999"],
+                     ["str", "9223372036854775807"], ["str", "-9223372036854775808"], ["str", "9223372036854775808"], ["str", "TXTX:%d" % x], ["str", "T%d TX:X TX:%d" % (x, x)],
+                     ["f64", float(x)], ["i64", x], ["nil", None], ["bytes", str(x)], ["int", 0], ["int", -x - 1], ["str", "0"], ["str", "TX:0"]]
+    if exhaustive or n > 60:
+        case["forms"] = case["forms"][:3] + rng.sample(case["forms"][3:], 5)
     case["seqs"] = []
     if with_seqs:
         for _ in range(min(nq, 10)):
@@ -325,7 +505,11 @@ def mk_case(rng, par, kind, nq, exhaustive=False, ranks=None, with_seqs=True):
             elif r < 0.6:
                 x = rng.choice(qids)
                 s["slotstr"] = rng.choice(["TX:%d", "taxon TX:%d [x]", "%d", "+%d", "TX:%d TX:1", "tx:%d", "TX%d", "NA", "", "TX:", "12x"]).replace("%d", str(x))
-            if rng.random() < 0.75:
+            if rng.random() < 0.04:
+                s["taxid"] = None                              # neither taxid nor merged_taxid: {"na": 1}
+                s.pop("restrict", None); s.pop("ignore", None); s.pop("require", None); s.pop("atrank", None); s.pop("slot", None); s.pop("slotstr", None)
+                s["thr"], s["reps"] = [1.0], 1
+            elif rng.random() < 0.75:
                 k = rng.choice([1, 2, 2, 3, 4, 6])
                 base = rng.choice(ids)          # taxa of one clade: the LCA is below the root
                 cl = [t for t in rng.sample(ids, min(n, 40)) if base in T.anc(t)] if rng.random() < 0.6 else []
@@ -339,7 +523,26 @@ def mk_case(rng, par, kind, nq, exhaustive=False, ranks=None, with_seqs=True):
                     m[str(rng.choice(ids))] = 0                            # a taxon of weight 0 does not count
                 elif r < 0.30:
                     m[str(unknown[0])] = 1                                 # unknown taxid: panic
+                r = rng.random()
+                if olds and r < 0.25:
+                    # round 2: several ids of ONE taxon (aliases and/or the taxon itself) in the same merged set: their weights add up
+                    o = rng.choice(olds)
+                    m[str(o)] = rng.choice([0, 1, 1, 2, 5])
+                    m[str(T.resolve(o))] = rng.choice([0, 1, 1, 3])
+                    for o2 in olds:
+                        if o2 != o and T.resolve(o2) == T.resolve(o) and rng.random() < 0.7:
+                            m[str(o2)] = rng.choice([0, 1, 2])
+                elif r < 0.35:
+                    # ties: two sister clades of equal weight
+                    w = rng.randrange(1, 4)
+                    for t in rng.sample(ids, min(n, 2)):
+                        m[str(t)] = w
                 s["merged"] = m
+                if small:
+                    s["thr"] = sorted({rng.choice([1.0, 1.0, 0.9, 0.75, 2 / 3, 0.6, 0.5, 0.5, 0.4, 1 / 3, 0.25, 0.1, 1.5, round(rng.random(), 3) or 0.5]) for _ in range(rng.randrange(1, 4))} | {1.0}, reverse=True)
+                    s["reps"] = 12
+                else:
+                    s["thr"], s["reps"] = [1.0, rng.choice([0.5, 0.7])], 3
             case["seqs"].append(s)
     return case
 
@@ -367,6 +570,32 @@ CORPUS = [
     dict(kind="corpus", n=4, onlysn=False, nodes=[[1, 1, "no rank"], [2, 1, "genus"], [3, 1, "genus"], [4, 2, "species"], [4, 3, "species"]],
          names=[[t, "taxon%d" % t, "scientific name"] for t in range(1, 5)], merged=[], pairs=[[4, 2], [4, 3], [4, 4]], paths=[4], ranks=[[4, "genus"]], sets=[], resolve=[4], namesq=[], seqs=[]),
 ]
+# round 2: thresholds below 1.0 (ties, alias weights), Taxon(interface{}) forms, IsNameMatching, rows outside the tree, a taxon without scientific name
+_R2NODES = [[1, 1, "no rank"], [2, 1, "kingdom"], [3, 2, "family"], [4, 3, "genus"], [5, 4, "species"], [6, 4, "species"], [7, 3, "genus"], [8, 7, "species"]]
+CORPUS += [
+    dict(kind="corpus", n=8, onlysn=False, nodes=_R2NODES,
+         names=[[t, "taxon%d" % t, "scientific name", "uniq %d" % t] for t in range(1, 9)] + [[5, "first synonym", "synonym", ""], [5, "Homo sapiens", "scientific name", ""], [8, "only synonym", "common name", ""]],
+         merged=[[99, 7], [98, 99], [96, 98], [95, 96], [94, 95]],
+         resolve=[99, 98, 96, 95, 94], pairs=[[94, 5], [95, 8]], paths=[94],
+         namesq=[[5, "taxon5"], [5, "Homo sapiens"], [5, "first synonym"], [5, ""]], namesm=[[5, "^Homo"], [5, "^taxon"], [5, "syn"], [8, "^only"], [8, "^taxon8$"], [2, "x.n2"]],
+         forms=[["int", 5], ["str", "5"], ["str", "TX:5"], ["str", "x TX:98 y"], ["f64", 5.0], ["i64", 5], ["nil", None], ["bytes", "5"], ["str", "+5"], ["str", "-5"], ["str", " 5"],
+                ["str", "TX:99999999999999999999999"], ["str", "5_0"], ["str", "0x5"], ["str", "TX:5TX:6"], ["str", "TXTX:6"], ["str", "TX:x TX:7"]],
+         seqs=[dict(taxid=5, merged={"5": 1, "6": 1, "8": 2}, thr=[1.0, 0.75, 0.5, 0.4, 0.25], reps=40),        # tie 4 | 7 at 0.5, then 5 | 6 at 0.25
+               dict(taxid=5, merged={"99": 4, "7": 1, "5": 2}, thr=[1.0, 0.6, 0.3], reps=40),                    # 99 is an alias of 7: node 7 weighs 5
+               dict(taxid=5, merged={"99": 0, "7": 1, "5": 2}, thr=[1.0], reps=40),                              # (7 overwritten with 0 before the fix: LCA 5 or 3)
+               dict(taxid=5, merged={"94": 1, "95": 1, "8": 1, "5": 1}, thr=[1.0, 0.7, 0.5], reps=20),
+               dict(taxid=5, merged={"5": 3, "6": 2, "4": 1, "3": 1}, thr=[1.0, 0.9, 5 / 7, 0.7, 0.5, 0.3], reps=10),  # inner nodes among the merged taxa
+               dict(taxid=None, merged=None, thr=[1.0], reps=1),
+               dict(taxid=5, merged={"5": 0, "8": 0}, thr=[1.0, 0.5], reps=5),
+               dict(taxid=5, merged={"5": 2, "8": 1}, thr=[1.5, 1.0, 2 / 3, 0.6666666666666667, 0.66666666666666674], reps=5)]),
+    # rows outside the tree (dangling parent) + a taxon without scientific name (6) that is the genus of nobody but the species of itself
+    dict(kind="corpus", n=8, onlysn=False, nodes=_R2NODES + [[50, 777, "species"], [51, 50, "species"]], loads=8, garbage=[50, 51],
+         names=[[t, "taxon%d" % t, "scientific name"] for t in (1, 2, 3, 5, 7, 8, 50, 51)] + [[4, "just a synonym", "synonym"]], merged=[],
+         pairs=[[5, 8], [8, 5], [5, 5], [6, 4], [50, 5], [5, 50], [51, 50], [50, 50]], paths=[5, 8, 50, 51], ranks=[[5, "genus"], [8, "family"], [50, "species"], [51, "genus"]],
+         sets=[[5, [7, 50]], [8, [7]]], resolve=[5, 50, 51], namesq=[[4, "just a synonym"], [6, "x"]], namesm=[[4, "syn"], [5, "^t"]],
+         seqs=[dict(taxid=5, merged={"5": 1, "6": 1}, restrict=[3], atrank=["genus", "species"], thr=[1.0], reps=3),
+               dict(taxid=6, merged=None, atrank=["species", "family"])]),
+]
 for c in CORPUS:
     for k in ("pairs", "paths", "ranks", "sets", "resolve", "namesq", "seqs"):
         c.setdefault(k, [])
@@ -380,15 +609,12 @@ def gen_cases(ctx, quick):
     rng = ctx.rng
     cases = [json.loads(json.dumps(c)) for c in CORPUS]
     # exhaustive small scope: every rooted tree up to nmax nodes x all pairs (with aliases and unknown ids) x all ranks
-    nmax = 4 if quick else 6
+    nmax = 5 if quick else 6         # round 2: every rooted tree with at most 5 nodes in the quick tier
     nex = 0
     for n in range(1, nmax + 1):
         for par in all_parent_maps(n):
             cases.append(mk_case(rng, list(par), "all%d" % n, 4, exhaustive=True, ranks=RANKS[:3], with_seqs=(n <= 5)))
             nex += 1
-    if quick:
-        for par in rng.sample(all_parent_maps(5), 40):
-            cases.append(mk_case(rng, list(par), "all5-sample", 4, exhaustive=True, ranks=RANKS[:3]))
     sizes = ([(8, 40), (40, 25), (300, 6)] if quick else [(8, 1000), (40, 400), (300, 80), (1500, 12)])
     for n, k in sizes:
         for _ in range(k):
@@ -411,6 +637,58 @@ def nl(l):
     return "[" + "; ".join(str(x) for x in l) + "]"
 
 
+STRTAB = {}
+
+
+def bl(x):
+    """byte string -> name of a Gallina constant defined once per generated file (keeps the case terms small)"""
+    return STRTAB.setdefault(x, "b%d" % len(STRTAB))
+
+
+FTAB = {}
+
+
+def strtab_defs():
+    return "".join("Definition %s : spec_float := %s.\n" % (k, x) for x, k in FTAB.items()) + \
+        "".join("Definition %s : list N := [%s].\n" % (k, ";".join(str(c) for c in x.encode("utf8"))) for x, k in STRTAB.items())
+
+
+def sf(bits):
+    return FTAB.setdefault(sf_lit(bits), "f%d" % len(FTAB))
+
+
+def sf_lit(bits):
+    """IEEE binary64 bit pattern -> SpecFloat.spec_float literal"""
+    sign = "true" if bits >> 63 else "false"
+    e, f = (bits >> 52) & 0x7ff, bits & ((1 << 52) - 1)
+    if e == 0x7ff:
+        return "S754_nan" if f else "(S754_infinity %s)" % sign
+    if e == 0 and f == 0:
+        return "(S754_zero %s)" % sign
+    if e == 0:
+        return "(S754_finite %s %d (-1074))" % (sign, f)
+    return "(S754_finite %s %d (%d))" % (sign, f | (1 << 52), e - 1075)
+
+
+def name_line(r):
+    """the line of names.dmp the harness writes for a row [taxid, name, class, unique name, layout]"""
+    uniq = r[3] if len(r) > 3 else ""
+    layout = r[4] if len(r) > 4 else 0
+    if layout == 1:
+        return "%d|%s|%s|%s|" % (r[0], r[1], uniq, r[2])
+    if layout == 2:
+        return " %d | %s  |%s |  %s | " % (r[0], r[1], uniq, r[2])
+    return "%d\t|\t%s\t|\t%s\t|\t%s\t|" % (r[0], r[1], uniq, r[2])
+
+
+def form_term(kind, v):
+    if kind == "int":
+        return "FInt (%d)%%Z" % v
+    if kind == "str":
+        return "FStr %s" % bl(v)
+    return "FOther"
+
+
 def case_term(case, obs):
     rc = {}
 
@@ -427,18 +705,31 @@ def case_term(case, obs):
     for s, o in zip(case["seqs"], obs["seqs"] or []):
         tx = "None" if s.get("taxid") is None else "(Some %d)" % s["taxid"]
         mg = "None" if s.get("merged") is None else "(Some [" + "; ".join("(%d,(%d)%%Z)" % (int(k), w) for k, w in s["merged"].items()) + "])"
-        sl = "None" if slot_id(s) is None else "(Some %d)" % slot_id(s)
+        sv = s["slotstr"] if s.get("slotstr") is not None else (str(s["slot"]) if s.get("slot") is not None else None)
+        sl = "None" if sv is None else "(Some (FStr %s))" % bl(sv)      # the model parses the attribute value itself (taxon_of)
         at = "[" + "; ".join("(%d,(%d)%%Z)" % (rcode(k), (o.get("atrank") or {}).get(k, -99)) for k in (s.get("atrank") or [])) + "]"
-        seqs.append("mkseq %s %s %s %s %s %s %s %s" % (tx, mg, nl(s.get("restrict") or []), nl(s.get("ignore") or []), nl([rcode(k) for k in (s.get("require") or [])]), at, sl,
-                                                      zl([o["valid"], o["restrict"], o["ignore"], o["require"], o["slotsub"], o["wlca"], o["lcaattr"]])))
-    nc = {}
-
-    def ncode(n):
-        return nc.setdefault(n, len(nc))
-    names = "[" + "; ".join("(%d,%d,%s)" % (t, ncode(n), "true" if c == "scientific name" else "false") for t, n, c in case["names"]) + "]"
-    namesq = "[" + "; ".join("(%d,%d,(%d)%%Z)" % (a, ncode(n), o) for (a, n), o in zip(case["namesq"], obs["namesq"] or [])) + "]"
-    return "mkcase %s %s (%d)%%Z (%d)%%Z %s %s %s %s %s [%s] %s %s %s" % (nodes, merged, obs["len"], obs["nalias"], pairs, paths, ranks, sets, res, "; ".join(seqs),
-                                                                 "true" if case.get("onlysn") else "false", names, namesq)
+        thr = []
+        for t, ot in zip(s.get("thr") or [], o.get("thr") or []):
+            outs = "; ".join("((%d)%%Z, %s, (%d)%%Z)" % (q["t"], sf(int(q["b"]) if q["b"] else 0), q["g"]) for q in ot if q["t"] != -100)
+            thr.append("(%s, [%s])" % (sf(fbits(t)), outs))
+        seqs.append("mkseq %s %s %s %s %s %s %s %s [%s] (%d)%%Z" % (tx, mg, nl(s.get("restrict") or []), nl(s.get("ignore") or []), nl([rcode(k) for k in (s.get("require") or [])]), at, sl,
+                                                      zl([o["valid"], o["restrict"], o["ignore"], o["require"], o["slotsub"], o["wlca"], o["lcaattr"]]), "; ".join(thr), o.get("notax", -9)))
+    TT = Tax(case)
+    nrows = case["names"]
+    if case["n"] > 60:      # large taxonomies: only the rows of the taxa whose names are queried (the model filters on the taxid anyway)
+        asked = {TT.resolve(q[0]) for q in (case["namesq"] or []) + (case.get("namesm") or [])}
+        nrows = [r for r in nrows if r[0] in asked]
+    names = "[" + "; ".join("(%d,%s,%s)" % (r[0], bl(r[1].strip()), bl(r[2].strip())) for r in nrows) + "]"
+    namesq = "[" + "; ".join("(%d,%s,(%d)%%Z)" % (a, bl(n), o) for (a, n), o in zip(case["namesq"], obs["namesq"] or [])) + "]"
+    pc = {}
+    namesm = "[" + "; ".join("(%d,%d,(%d)%%Z)" % (a, pc.setdefault(pat, len(pc)), o) for (a, pat), o in zip(case.get("namesm") or [], obs.get("namesm") or [])) + "]"
+    need = sorted({(pat, r[1].strip()) for a, pat in case.get("namesm") or [] for r in case["names"] if r[0] == TT.resolve(a)})
+    retab = "[" + "; ".join("(%d,%s,%s)" % (pc[pat], bl(n), "true" if re.search(pat, n) else "false") for pat, n in need) + "]"
+    forms = "[" + "; ".join("(%s,(%d)%%Z)" % (form_term(k, v), o) for (k, v), o in zip(case.get("forms") or [], obs.get("forms") or [])) + "]"
+    nparse = "[" + "; ".join("(%s,(%d)%%Z,%s,%s)" % (bl(name_line(r)), r[0], bl(r[1].strip()), bl(r[2].strip())) for r in nrows[:6]) + "]"
+    return "mkcase %s %s (%d)%%Z (%d)%%Z %s %s %s %s %s [%s] %s %s %s %s %s %s %s %s" % (nodes, merged, obs["len"], obs["nalias"], pairs, paths, ranks, sets, res, "; ".join(seqs),
+                                                                 "true" if case.get("onlysn") else "false", names, namesq,
+                                                                 "true" if TT.wf() else "false", forms, namesm, retab, nparse)
 
 
 # ------------------------------------------------------------------ run
@@ -472,19 +763,31 @@ def evaluate(ctx, cases, broken, label, coq=True):
         ok_idx = [i for i, o in enumerate(obs) if o.get("kind") == "ok"]
         small = [i for i in ok_idx if cases[i]["n"] <= 60]
         large = [i for i in ok_idx if cases[i]["n"] > 60]
-        for part, shard, nm in ((small, 60, label + "_s"), (large, 2, label + "_l")):
-            if not part:
-                continue
-            terms = [case_term(cases[i], obs[i]) for i in part]
+        jobs = []
+        for part, shard, nm in ((small, 40, label + "_s"), (large, 2, label + "_l")):
+            for k in range(0, len(part), shard):      # one generated file per shard, each with its own table of string constants
+                chunk = part[k:k + shard]
+                STRTAB.clear()
+                FTAB.clear()
+                terms = [case_term(cases[i], obs[i]) for i in chunk]
+                jobs.append((chunk, "%s%d" % (nm, k // shard), IMPORTS + "\n" + strtab_defs(), terms))
+
+        def one(job):
+            chunk, nm, imports, terms = job
             for attempt in range(3):     # a coqc killed from outside (other checks share the machine) is retried, a real failure is not
-                bad, err = ctx.correspond(nm, IMPORTS, terms, shard=shard)
+                bad, err = ctx.correspond(nm, imports, terms, shard=len(terms))
                 if bad is not None or not any(w in (err or "") for w in ("Terminated", "Killed")):
                     break
-                ctx.cov["model_evaluations"] = ctx.cov.get("model_evaluations", 0)
+            return chunk, bad, err
+        from concurrent.futures import ThreadPoolExecutor
+        with ThreadPoolExecutor(max_workers=12) as ex:
+            results = list(ex.map(one, jobs))
+        for chunk, bad, err in results:
             if bad is None:
                 broken.append(dict(kind="correspondence", detail=err))
             else:
-                mism += [part[i] for i in bad]
+                mism += [chunk[i] for i in bad]
+        ctx.cov["model_evaluations"] = len(small) + len(large)
         ctx.cov["coq_eval_s"] = round(ctx.cov.get("coq_eval_s", 0) + time.time() - t0, 1)
     return obs, sorted(mism), failing
 
@@ -499,18 +802,32 @@ def run_cycle(ctx):
     ctx.cov["cycle_observation_note"] = "nodes.dmp with a parent cycle 2->3->2: Path never returns (harness timeout) — outside wf_tax, observation only"
 
 
+def run_hang(ctx):
+    """Taxonomy.LCA(seq, 0.0) (--lca-error 1): `for rmax >= threshold` never exits (observation; C14_wld_never_returns_when_every_score_passes)."""
+    c = json.loads(json.dumps(CORPUS[0]))
+    for k in ("pairs", "paths", "ranks", "sets", "resolve", "namesq"):
+        c[k] = []
+    c["seqs"] = [dict(taxid=5, merged={"5": 1, "8": 1}, thr=[0.0], reps=1)]
+    obs = ctx.vh_robust("c14", [c], timeout=4, one_timeout=4)
+    ctx.cov["threshold0_observation"] = obs[0].get("kind")
+    ctx.cov["threshold0_observation_note"] = "Taxonomy.LCA(seq, 0.0): the loop never exits (harness timeout = kind 'crash') - outside the property, observation only"
+
+
 def queries(c):
-    return sum(len(c[k]) for k in ("pairs", "paths", "ranks", "sets", "resolve", "namesq", "seqs"))
+    return sum(len(c.get(k) or []) for k in ("pairs", "paths", "ranks", "sets", "resolve", "namesq", "namesm", "forms", "seqs")) + \
+        sum(len(s.get("thr") or []) * (s.get("reps") or 1) for s in c["seqs"])
 
 
 def run(ctx, broken):
     cases, nex = gen_cases(ctx, ctx.quick)
     obs, mism, failing = evaluate(ctx, cases, broken, "main")
     run_cycle(ctx)
+    run_hang(ctx)
     run_cli(ctx, broken)
     ctx.cov["evaluations"] = sum(queries(c) for c in cases)
     ctx.cov["taxonomies"] = len(cases)
-    ctx.cov["exhaustive"] = "all %d rooted trees with at most %d nodes x all pairs of (nodes + aliases + 2 unknown ids) x all ranks" % (nex, 4 if ctx.quick else 6)
+    ctx.cov["exhaustive"] = True
+    ctx.cov["exhaustive_scope"] = "all %d rooted trees with at most %d nodes x all pairs of (nodes + aliases + unknown ids) x all ranks" % (nex, 5 if ctx.quick else 6)
     nt = set()
     for c in cases:
         T = Tax(c)
@@ -549,7 +866,7 @@ def run_cli(ctx, broken):
     nrun = 0
     for k in range(ntax):
         kind = rng.choice(["rrt", "deep", "caterpillar"])
-        case = mk_case(rng, shape(rng, rng.randrange(6, 60), kind), kind, 10, with_seqs=False)
+        case = mk_case(rng, shape(rng, rng.randrange(6, 60), kind), kind, 10, with_seqs=False, plain=True)
         T = Tax(case)
         ids = [r[0] for r in case["nodes"]]
         olds = list(T.alias)
@@ -645,8 +962,8 @@ def write_dump(d, case):
         for t, p, r in case["nodes"]:
             f.write("%d\t|\t%d\t|\t%s\t|\t\t|\t0\t|\t1\t|\t1\t|\t0\t|\t0\t|\t0\t|\t0\t|\t0\t|\t\t|\n" % (t, p, r))
     with open(os.path.join(d, "names.dmp"), "w") as f:
-        for t, n, c in case["names"]:
-            f.write("%d\t|\t%s\t|\t\t|\t%s\t|\n" % (t, n, c))
+        for r in case["names"]:
+            f.write("%d\t|\t%s\t|\t%s\t|\t%s\t|\n" % (r[0], r[1], r[3] if len(r) > 3 else "", r[2]))
     with open(os.path.join(d, "merged.dmp"), "w") as f:
         for o, n in case["merged"]:
             f.write("%d\t|\t%d\t|\n" % (o, n))
